@@ -75,6 +75,8 @@ Fixpoint dedup_sorted (l : list bytes) : list bytes :=
   | _ => l
   end.
 Definition sorted_set (l : list bytes) : bytes := enc_list (dedup_sorted (sort_by bytes_leb l)).
+(* sorted multiset: a rule reported twice (the same text from two lists) is a different answer *)
+Definition sorted_multi (l : list bytes) : bytes := enc_list (sort_by bytes_leb l).
 
 Fixpoint res_all {A} (l : list (res A)) : res (list A) :=
   match l with
